@@ -116,6 +116,20 @@ NumericText(s) ==
                   ELSE [ok |-> FALSE, q |-> QI(0)]
           ELSE [ok |-> FALSE, q |-> QI(0)]
 
+(* the same with a decimal exponent of at most five: 1e-05, 2.5E3, 1e+2 *)
+ExpNumericText(s) ==
+  LET es == {i \in 1..Len(s) : s[i] \in {101, 69}}
+  IN IF Cardinality(es) # 1 THEN NumericText(s)
+     ELSE LET p == CHOOSE i \in es : TRUE
+              m == NumericText(SubSeq(s, 1, p - 1))
+              xt == SubSeq(s, p + 1, Len(s))
+              xs == IF xt # <<>> /\ xt[1] \in {43, 45} THEN Tail(xt) ELSE xt
+              neg == xt # <<>> /\ xt[1] = 45
+          IN IF ~m.ok \/ ~AllDigits(xs) \/ Len(xs) > 3 \/ DigitsVal(xs) > 5 THEN [ok |-> FALSE, q |-> QI(0)]
+             ELSE LET k == Pow10(DigitsVal(xs))
+                  IN IF neg THEN (IF m.q.d <= 10000 THEN [ok |-> TRUE, q |-> Q(m.q.n, m.q.d * k)] ELSE [ok |-> FALSE, q |-> QI(0)])
+                     ELSE (IF AbsI(m.q.n) <= 10000 THEN [ok |-> TRUE, q |-> Q(m.q.n * k, m.q.d)] ELSE [ok |-> FALSE, q |-> QI(0)])
+
 (***************************************************************************)
 (* Arrays                                                                  *)
 (***************************************************************************)
